@@ -25,38 +25,71 @@ theorem parse_buildWith (brk : Nat → Bool) (x : Gff) (h : wfBuild x = true) :
   simp only [wfBuild, Bool.and_eq_true, List.all_eq_true] at h
   obtain ⟨⟨⟨⟨⟨⟨h1, h2⟩, h3⟩, h4⟩, h5⟩, h6⟩, h7⟩ := h
   have htail := fasta_tail brk x.seq h6
-  have hlines : split '\n' (buildWith brk x) = versionLine x :: regionLine x ::
-      ((x.features.map (buildFeature x.locusName) ++ [sClose]) ++ sFasta :: ('>' :: x.name) ::
-        split '\n' (wrapWith brk 0 x.seq ++ ['\n'])) := by
+  -- no line before the sequence holds LF or CR
+  have hhead : ∀ l ∈ headLines x, ∀ c ∈ ['\n', '\r'], c ∉ l := by
+    intro l hl c hc
+    have hc3 : c ∈ [' ', '\n', '\r'] := by
+      simp only [List.mem_cons, List.not_mem_nil, or_false] at hc ⊢
+      rcases hc with rfl | rfl <;> simp
+    have hc4 : c ∈ ['\t', '\n', '\r', ' '] := by
+      simp only [List.mem_cons, List.not_mem_nil, or_false] at hc ⊢
+      rcases hc with rfl | rfl <;> simp
+    have hsp : c ≠ ' ' := by
+      simp only [List.mem_cons, List.not_mem_nil, or_false] at hc
+      rcases hc with rfl | rfl <;> decide
+    simp only [headLines, List.mem_cons, List.mem_append, List.mem_map, List.not_mem_nil, or_false] at hl
+    rcases hl with rfl | rfl | ⟨f, hf, rfl⟩ | rfl | rfl | rfl
+    · unfold versionLine
+      split
+      · simp only [List.mem_append, List.mem_cons, not_or]
+        exact ⟨sGffVersion_free _ hc3, hsp, free_not_mem h3 hc3⟩
+      · simp only [List.mem_append, List.mem_cons, List.not_mem_nil, or_false, not_or]
+        refine ⟨sGffVersion_free _ hc3, hsp, ?_, hsp⟩
+        simp only [List.mem_cons, List.not_mem_nil, or_false] at hc
+        rcases hc with rfl | rfl <;> decide
+    · unfold regionLine
+      simp only [List.append_assoc, List.cons_append, List.mem_append, List.mem_cons, not_or]
+      exact ⟨sSeqRegion_free _ hc3, hsp, free_not_mem h1 hc3, hsp, regionStartText_free x _ hc3, hsp,
+        regionEndText_free x _ hc3⟩
+    · exact (buildFeature_line (h7 f hf)).2.2 c hc
+    · simp only [List.mem_cons, List.not_mem_nil, or_false] at hc
+      rcases hc with rfl | rfl <;> decide
+    · simp only [List.mem_cons, List.not_mem_nil, or_false] at hc
+      rcases hc with rfl | rfl <;> decide
+    · simp only [List.mem_cons, not_or]
+      refine ⟨?_, free_not_mem h2 hc⟩
+      simp only [List.mem_cons, List.not_mem_nil, or_false] at hc
+      rcases hc with rfl | rfl <;> decide
+  have hlines : split '\n' (buildWith brk x) = headLines x ++ split '\n' (wrapWith brk 0 x.seq ++ ['\n']) := by
     unfold buildWith
-    rw [List.append_assoc, split_unlines]
+    rw [List.append_assoc, split_unlines _ _ (fun l hl => hhead l hl '\n' (by simp))]
+  have htailcr : ∀ l ∈ split '\n' (wrapWith brk 0 x.seq ++ ['\n']), '\r' ∉ l := by
+    intro l hl hm
+    have := split_mem hl '\r' hm
+    have hmem : '\r' ∈ wrapWith brk 0 x.seq := by
+      rcases List.mem_append.1 this.1 with hm | hm
+      · exact hm
+      · simp at hm
+    rcases wrapWith_mem brk 0 x.seq '\r' hmem with hm | hm
+    · exact seqChar_noCR (h6 _ hm) rfl
+    · exact absurd hm (by decide)
+  have htrim : (split '\n' (buildWith brk x)).map trimCR = versionLine x :: ([] ++ regionLine x ::
+      ((x.features.map (buildFeature x.locusName) ++ [sClose]) ++ sFasta :: ('>' :: x.name) ::
+        split '\n' (wrapWith brk 0 x.seq ++ ['\n']))) := by
+    rw [hlines, map_trimCR_of_free]
     · simp [headLines, List.append_assoc]
     · intro l hl
-      simp only [headLines, List.mem_cons, List.mem_append, List.mem_map, List.not_mem_nil, or_false] at hl
-      rcases hl with rfl | rfl | ⟨f, hf, rfl⟩ | rfl | rfl | rfl
-      · unfold versionLine
-        split
-        · simp only [List.mem_append, List.mem_cons, not_or]
-          exact ⟨sGffVersion_free _ (by simp), by decide, free_not_mem h3 (by simp)⟩
-        · have := sGffVersion_free '\n' (by simp)
-          simp only [List.mem_append, List.mem_cons, List.not_mem_nil, or_false, not_or]
-          exact ⟨this, by decide, by decide, by decide⟩
-      · unfold regionLine
-        simp only [List.append_assoc, List.cons_append, List.mem_append, List.mem_cons, not_or]
-        exact ⟨sSeqRegion_free _ (by simp), by decide, free_not_mem h1 (by simp), by decide,
-          regionStartText_free x _ (by simp), by decide, regionEndText_free x _ (by simp)⟩
-      · exact (buildFeature_line (h7 f hf)).2.2
-      · decide
-      · decide
-      · simp only [List.mem_cons, not_or]
-        exact ⟨by decide, free_not_mem h2 (by simp)⟩
+      rcases List.mem_append.1 hl with hl | hl
+      · exact hhead l hl '\r' (by simp)
+      · exact htailcr l hl
   have hmid : MidOk (x.features.map (buildFeature x.locusName) ++ [sClose]) (x.features.map (expectedFeature x.locusName)) := by
     have := MidOk.append (midOk_features x.locusName x.features h7)
       (MidOk.skip (line := sClose) (by decide) (by decide))
     simpa using this
-  unfold parse
-  rw [hlines, parseLines_doc _ _ _ _ _ _ _ _ _ _ _ (versionLine_split x h3) (regionLine_split x h1)
-    (versionLine_facts x).1 (versionLine_facts x).2 (regionLine_facts x).1 (regionLine_facts x).2 x.seq hmid htail]
+  unfold parse parseLines
+  rw [htrim, parseTrimmed_doc _ _ _ _ _ _ _ _ _ _ _ _ (versionLine_split x h3) (regionLine_split x h1)
+    (versionLine_facts x).1 (versionLine_facts x).2 (regionLine_prefix x) (regionLine_facts x).1 (regionLine_facts x).2
+    (by simp) MidOk.nil x.seq hmid htail]
   rw [atoi_regionStartText x h4, atoi_regionEndText x h5]
   rfl
 
@@ -139,36 +172,35 @@ theorem getSeq_is_getFeatureSequence (parent : Str) (f : Feature) :
 
 /-! ### C14, third clause: text laid out by the independent writer -/
 
-/-- **The parse of text written by the independent GFF3 writer is what the document denotes** —
+/-- **The parse of any text written by the independent GFF3 writer is what the document denotes** —
 arbitrary FASTA line widths (also blank lines inside the sequence); any number of skip lines
 (blank lines, `#` comments, `##` directives, `###`) before every feature, after the last feature
-and between the lines of the FASTA section; with or without the final newline.
-PARTIAL: for `plainLayout ℓ`, i.e. `##sequence-region` on the second line, no `;` at the end of
-column 9, LF line ends.  The statement without that hypothesis is false of the code:
-`trailing_semicolon_witness`, `crlf_witness`, `directive_before_region_witness`. -/
-theorem parse_layout_partial (d : GffDoc) (ℓ : Layout) (hd : wfDoc d = true) (hl : wfLayout ℓ = true)
-    (hp : plainLayout ℓ = true) : parse (layout d ℓ) = .ok (denote d) := by
+and between the lines of the FASTA section; directives between `##gff-version` and
+`##sequence-region`; column 9 with or without a final `;` (also an empty column 9); LF or CR LF line
+ends; with or without the final line end.  (The last three made `Parse` panic until fixes
+aac6dbd, 244ec83, 4e5b18b.) -/
+theorem parse_layout (d : GffDoc) (ℓ : Layout) (hd : wfDoc d = true) (hl : wfLayout ℓ = true) :
+    parse (layout d ℓ) = .ok (denote d) := by
   simp only [wfDoc, Bool.and_eq_true, List.all_eq_true] at hd
   obtain ⟨⟨⟨⟨⟨⟨h1, h2⟩, h3⟩, h4⟩, h5⟩, h6⟩, h7⟩ := hd
-  simp only [wfLayout, Bool.and_eq_true, List.all_eq_true] at hl
-  obtain ⟨⟨⟨hbetween, hafter⟩, hfasta⟩, _⟩ := hl
-  simp only [plainLayout, Bool.and_eq_true, Bool.not_eq_true', List.isEmpty_iff] at hp
-  obtain ⟨⟨hpre, hsemi⟩, hcr⟩ := hp
-  -- the lines, in the shape of `parseLines_doc`
+  simp only [wfLayout, wfPreRegion, Bool.and_eq_true, Bool.not_eq_true', List.all_eq_true] at hl
+  obtain ⟨⟨⟨hbetween, hafter⟩, hfasta⟩, hpre⟩ := hl
+  -- the lines, in the shape of `parseTrimmed_doc`
   let vline := joinSep ' ' [sGffVersion, d.version]
   let rline := joinSep ' ' [sSeqRegion, d.region, itoa d.regionFirst, itoa d.regionLast]
-  let mid := interleave (d.feats.map (featText false)) ℓ.between ++ ℓ.after
+  let mid := interleave (d.feats.map (featText ℓ.trailingSemi)) ℓ.between ++ ℓ.after
   let tail := interleave (chunks ℓ.widths d.seq) ℓ.fastaBetween
-  have hshape : layoutLines d ℓ = vline :: rline :: (mid ++ sFasta :: ('>' :: d.defline) :: tail) := by
-    simp [layoutLines, hpre, hsemi, vline, rline, mid, tail, List.append_assoc]
+  have hshape : layoutLines d ℓ = vline :: (ℓ.preRegion ++ rline :: (mid ++ sFasta :: ('>' :: d.defline) :: tail)) := by
+    simp [layoutLines, vline, rline, mid, tail, List.append_assoc]
   have hmid : MidOk mid (d.feats.map denoteFeat) := by
-    have := MidOk.append (midOk_featLines d.feats ℓ.between h5 hbetween) (midOk_skips ℓ.after hafter)
+    have := MidOk.append (midOk_featLines ℓ.trailingSemi d.feats ℓ.between h5 hbetween) (midOk_skips ℓ.after hafter)
     simpa [mid] using this
   have hchunk : ∀ l ∈ chunks ℓ.widths d.seq, ∀ c ∈ l, seqChar c = true :=
     fun l hl c hc => h7 c (chunks_mem _ _ l hl c hc)
   have htail : TailOk tail d.seq := by
     have := tailOk_chunks (chunks ℓ.widths d.seq) ℓ.fastaBetween hchunk hfasta
     rwa [chunks_flatten] at this
+  have hpreOk : MidOk ℓ.preRegion [] := midOk_skips _ (fun l hl => (hpre l hl).1)
   have hvsplit : idx (split ' ' vline) 1 = .ok d.version := by
     simp only [vline, joinSep]
     rw [split_cons_line _ (sGffVersion_free _ (by simp)), split_nosep (free_not_mem h1 (by simp))]
@@ -185,75 +217,63 @@ theorem parse_layout_partial (d : GffDoc) (ℓ : Layout) (hd : wfDoc d = true) (
     simp only [rline, joinSep]
     rw [sSeqRegion_eq]
     exact header_line_facts _ _ _ (by decide)
-  have hseqnl : '\n' ∉ d.seq := fun hm => (seqChar_facts (h7 _ hm)).1 rfl
-  -- no line holds a newline
-  have hnonl : ∀ l ∈ layoutLines d ℓ, '\n' ∉ l := by
+  have hrp : hasPrefix sSeqRegion rline = true := by
+    simp only [rline, joinSep]
+    exact hasPrefix_append_self _ _
+  -- no line holds LF or CR
+  have hfree : ∀ l ∈ layoutLines d ℓ, ∀ c ∈ ['\n', '\r'], c ∉ l := by
     rw [hshape]
-    intro l hl
+    intro l hl c hc
+    have hc3 : c ∈ [' ', '\n', '\r'] := by
+      simp only [List.mem_cons, List.not_mem_nil, or_false] at hc ⊢
+      rcases hc with rfl | rfl <;> simp
+    have hc4 : c ∈ ['\t', '\n', '\r', ' '] := by
+      simp only [List.mem_cons, List.not_mem_nil, or_false] at hc ⊢
+      rcases hc with rfl | rfl <;> simp
+    have hsp : c ≠ ' ' := by
+      simp only [List.mem_cons, List.not_mem_nil, or_false] at hc
+      rcases hc with rfl | rfl <;> decide
     simp only [List.mem_cons, List.mem_append, mid, tail] at hl
-    rcases hl with rfl | rfl | (hl | hl) | rfl | rfl | hl
+    rcases hl with rfl | hl | rfl | (hl | hl) | rfl | rfl | hl
     · simp only [vline, joinSep, List.mem_append, List.mem_cons, not_or]
-      exact ⟨sGffVersion_free _ (by simp), by decide, free_not_mem h1 (by simp)⟩
+      exact ⟨sGffVersion_free _ hc3, hsp, free_not_mem h1 hc3⟩
+    · exact (skip_facts (hpre l hl).1).2 c hc
     · simp only [rline, joinSep, List.mem_append, List.mem_cons, not_or]
-      exact ⟨sSeqRegion_free _ (by simp), by decide, free_not_mem h2 (by simp), by decide,
-        itoa_free_tabnl _ _ (by simp), by decide, itoa_free_tabnl _ _ (by simp)⟩
+      exact ⟨sSeqRegion_free _ hc3, hsp, free_not_mem h2 hc3, hsp,
+        itoa_free_tabnl _ _ hc4, hsp, itoa_free_tabnl _ _ hc4⟩
     · rcases mem_interleave _ _ l hl with hm | ⟨g, hg, hm⟩
       · obtain ⟨f, hf, rfl⟩ := List.mem_map.1 hm
-        exact (featText_line (h5 f hf)).2.2
-      · exact (skip_facts (hbetween g hg l hm)).2
-    · exact (skip_facts (hafter l hl)).2
-    · decide
+        exact (featText_line ℓ.trailingSemi (h5 f hf)).2.2 c hc
+      · exact (skip_facts (hbetween g hg l hm)).2 c hc
+    · exact (skip_facts (hafter l hl)).2 c hc
+    · simp only [List.mem_cons, List.not_mem_nil, or_false] at hc
+      rcases hc with rfl | rfl <;> decide
     · simp only [List.mem_cons, not_or]
-      exact ⟨by decide, free_not_mem h6 (by simp)⟩
+      refine ⟨?_, free_not_mem h6 hc⟩
+      simp only [List.mem_cons, List.not_mem_nil, or_false] at hc
+      rcases hc with rfl | rfl <;> decide
     · rcases mem_interleave _ _ l hl with hm | ⟨g, hg, hm⟩
-      · exact fun hc => hseqnl (chunks_mem _ _ l hm _ hc)
-      · exact (skip_facts (hfasta g hg l hm)).2
+      · intro hmem
+        have hsc := hchunk l hm c hmem
+        simp only [List.mem_cons, List.not_mem_nil, or_false] at hc
+        rcases hc with rfl | rfl
+        · exact (seqChar_facts hsc).1 rfl
+        · exact seqChar_noCR hsc rfl
+      · exact (skip_facts (hfasta g hg l hm)).2 c hc
   have hne : layoutLines d ℓ ≠ [] := by rw [hshape]; simp
-  unfold parse layout
-  simp only [hcr, Bool.false_eq_true, if_false, joinLines_lf]
+  unfold parse parseLines layout
+  rw [split_layoutText _ hne hfree, hshape]
   by_cases hfn : ℓ.finalNewline = true
-  · rw [if_pos hfn, split_joinSep_sep hne hnonl, hshape]
-    have : (vline :: rline :: (mid ++ sFasta :: ('>' :: d.defline) :: tail)) ++ [[]]
-        = vline :: rline :: (mid ++ sFasta :: ('>' :: d.defline) :: (tail ++ [[]])) := by simp
+  · have : (vline :: (ℓ.preRegion ++ rline :: (mid ++ sFasta :: ('>' :: d.defline) :: tail))) ++ [[]]
+        = vline :: (ℓ.preRegion ++ rline :: (mid ++ sFasta :: ('>' :: d.defline) :: (tail ++ [[]]))) := by simp
     have htail' : TailOk (tail ++ [[]]) d.seq := by
       simpa using TailOk.append htail TailOk.blank
-    rw [this, parseLines_doc _ _ _ _ _ _ _ _ _ _ _ hvsplit hrsplit hvf.1 hvf.2 hrf.1 hrf.2 d.seq hmid htail']
+    rw [if_pos hfn, this, parseTrimmed_doc _ _ _ _ _ _ _ _ _ _ _ _ hvsplit hrsplit hvf.1 hvf.2 hrp hrf.1 hrf.2
+      (fun l hl => (hpre l hl).2) hpreOk d.seq hmid htail']
     simp [denote, atoi_itoa (inInt_spec h3), atoi_itoa (inInt_spec h4)]
-  · rw [if_neg hfn, List.append_nil, split_joinSep hne hnonl, hshape,
-      parseLines_doc _ _ _ _ _ _ _ _ _ _ _ hvsplit hrsplit hvf.1 hvf.2 hrf.1 hrf.2 d.seq hmid htail]
+  · rw [if_neg hfn, List.append_nil, parseTrimmed_doc _ _ _ _ _ _ _ _ _ _ _ _ hvsplit hrsplit hvf.1 hvf.2 hrp hrf.1 hrf.2
+      (fun l hl => (hpre l hl).2) hpreOk d.seq hmid htail]
     simp [denote, atoi_itoa (inInt_spec h3), atoi_itoa (inInt_spec h4)]
-
-/-- a one-feature document for the three witnesses -/
-def witnessDoc : GffDoc :=
-  { version := ['3'], region := ['s'], regionFirst := 1, regionLast := 1,
-    feats := [{ seqid := ['s'], source := ['.'], type := ['g'], first := 1, last := 1, score := ['.'], strand := ['+'],
-                phase := ['.'], attrs := [(['I', 'D'], ['a'])] }],
-    defline := ['s'], seq := ['A'] }
-
-def FullLayoutClaim : Prop :=
-  ∀ (d : GffDoc) (ℓ : Layout), wfDoc d = true → wfLayout ℓ = true → parse (layout d ℓ) = .ok (denote d)
-
-theorem witness_of_panic (ℓ : Layout) (h1 : wfLayout ℓ = true) (h2 : parse (layout witnessDoc ℓ) = .panic) :
-    ¬ FullLayoutClaim := by
-  intro h
-  have := h witnessDoc ℓ (by decide) h1
-  rw [h2] at this
-  cases this
-
-/-- **Known finding C14-trailing-semicolon**, kernel-checked on the model: column 9 written as
-`ID=a;` makes `Parse` panic (`strings.Split("", "=")[1]`) -/
-theorem trailing_semicolon_witness : ¬ FullLayoutClaim :=
-  witness_of_panic { trailingSemi := true } (by decide) (by decide)
-
-/-- **Known finding C14-crlf**: the same text with CR LF line ends makes `Parse` panic (`##FASTA\r` is not
-the FASTA mark, `>s\r` is then split as a feature line) -/
-theorem crlf_witness : ¬ FullLayoutClaim :=
-  witness_of_panic { crlf := true } (by decide) (by decide)
-
-/-- **Known finding C14-directive-before-region**: a directive between `##gff-version` and
-`##sequence-region` makes `Parse` panic (the second line is taken for the region line) -/
-theorem directive_before_region_witness : ¬ FullLayoutClaim :=
-  witness_of_panic { preRegion := ["##species x".toList] } (by decide) (by decide)
 
 /-- the 1-based inclusive interval of the feature line `f` lies inside a sequence of length `n`
 (`first = last + 1` is the empty interval) -/
@@ -266,10 +286,10 @@ text, its features correspond one to one, in order, to the feature lines of the 
 every line whose columns 4 and 5 (`first`, `last`: 1-based, inclusive) lie inside the sequence the
 PARSED feature's GetSequence is exactly bases `first..last` of the PARSED sequence. -/
 theorem coords_layout (d : GffDoc) (ℓ : Layout) (hd : wfDoc d = true) (hl : wfLayout ℓ = true)
-    (hp : plainLayout ℓ = true) (y : Gff) (hy : parse (layout d ℓ) = .ok y) :
+    (y : Gff) (hy : parse (layout d ℓ) = .ok y) :
     List.Forall₂ (fun (g : Feature) (f : FeatLine) => insideLine f d.seq.length →
         getSeq y.seq g = .ok (bases y.seq f.first.toNat f.last.toNat)) y.features d.feats := by
-  rw [parse_layout_partial d ℓ hd hl hp] at hy
+  rw [parse_layout d ℓ hd hl] at hy
   cases hy
   simp only [denote]
   rw [List.forall₂_map_left_iff]
@@ -330,8 +350,17 @@ def sampleLayout : Layout :=
   { between := [["##species x".toList, "# a comment".toList, []], [['#'], "###".toList]], after := ["###".toList, []],
     fastaBetween := [[], ["# inside the sequence".toList]], widths := [4, 0, 3], finalNewline := false }
 
-example : wfDoc sampleDoc = true ∧ wfLayout sampleLayout = true ∧ plainLayout sampleLayout = true := by decide
+/-- the same layout with directives before the region line, `;` at the end of column 9, CR LF -/
+def sampleLayout2 : Layout :=
+  { sampleLayout with preRegion := ["##species x".toList, "##feature-ontology so.obo".toList], trailingSemi := true,
+                      crlf := true, finalNewline := true }
+
+example : wfDoc sampleDoc = true ∧ wfLayout sampleLayout = true ∧ wfLayout sampleLayout2 = true := by decide
 example : parse (layout sampleDoc sampleLayout) = .ok (denote sampleDoc) := by decide
+example : parse (layout sampleDoc sampleLayout2) = .ok (denote sampleDoc) := by decide
+/-- a feature without attributes: an empty ninth column reads back as no attributes -/
+example : parse (build { sample with features := [{ name := "chr1".toList, start := 0, stop := 3 }] })
+    = .ok (expected { sample with features := [{ name := "chr1".toList, start := 0, stop := 3 }] }) := by decide
 example : ∀ f ∈ sampleDoc.feats, insideLine f sampleDoc.seq.length := by decide
 example : getSeq (denote sampleDoc).seq (denoteFeat (sampleDoc.feats.getD 0 ⟨[], [], [], 0, 0, [], [], [], []⟩)) = .ok "CGT".toList := by decide
 
